@@ -14,6 +14,7 @@ pub mod extract;
 pub mod gate;
 pub mod generate;
 pub mod graph;
+pub mod hash_graph;
 pub mod json;
 pub mod linalg;
 pub mod openqasm;
@@ -22,3 +23,4 @@ pub mod rankwidth;
 pub mod scalar;
 pub mod simplify;
 pub mod tensor;
+pub mod vec_graph;
